@@ -176,7 +176,8 @@ def tlc_trace(work, module, tracefile, procs=6, workers=2, timeout=3000, heap="5
             e.update(env)
         r = tlc(work, module, cfg=cfg, workers=workers, timeout=timeout, env=e, heap=heap, tag="%s-p%d" % (module, i))
         if r["error"] is not None or r["violated"] or r["rc"] != 0:
-            raise Infra("trace validation %s part %d: TLC error\n%s" % (module, i, r["out"][-3000:]))
+            at = r["out"].find("Error:")
+            raise Infra("trace validation %s part %d: TLC error\n%s" % (module, i, r["out"][max(0, at - 200):at + 2500]))
         if r["distinct"] != n + workers:
             raise Infra("trace validation %s part %d consumed %d of %d lines" % (module, i, r["distinct"] - workers, n))
         ids = [int(re.findall(r"(\d+)\s*>>", m)[-1]) for m in r["mismatches"]]
